@@ -149,6 +149,17 @@ def run(tier):
         # comparison helper and call histories get/get/equals in any order
         scripts, exps = [], []
         sample = rng.sample(docs, min(len(docs), 300 if tier == "quick" else 3000))
+        # literals that shrink or keep their size when decoded, in every proportion (the helper must agree with the bytes
+        # returned whatever the ratio of raw to decoded length): k escapes of each kind of the build x 0..3 plain bytes
+        kinds = [b"\\n", b"\\t", b"\\\\", b"\\\""]
+        if cfg in ("clj", "both"):
+            kinds += [b"\\u0041", b"\\u00e9", b"\\u20ac", b"\\101", b"\\7", b"\\f", b"\\b", b"\\u0031"]
+        for esc in kinds:
+            for k in (1, 2, 3, 5):
+                for plain in (b"", b"a", b"id-", b"xyz12345"):
+                    for order in (0, 1):
+                        body = (plain + esc * k) if order == 0 else (esc * k + plain)
+                        sample.append(b"\"" + body + b"\"")
         for d in sample:
             content = scan_literal(d)
             if content is None:
@@ -159,6 +170,13 @@ def run(tier):
             for hist in itertools.permutations(["sg:0", "sg:0", "se:0:%s" % C.hexs(cstr)], 3):
                 scripts.append("Q r0=%s %s" % (C.hexs(d), " ".join(hist)))
                 exps.append((dec, cstr, hist))
+            # near misses: one byte more, one byte less, last byte changed
+            for miss in (cstr + b"x", cstr[:-1], cstr[:-1] + bytes([(cstr[-1] ^ 1) or 2]) if cstr else b"y"):
+                if b"\x00" in miss:
+                    continue
+                hist = ("se:0:%s" % C.hexs(miss), "sg:0", "se:0:%s" % C.hexs(miss))
+                scripts.append("Q r0=%s %s" % (C.hexs(d), " ".join(hist)))
+                exps.append((dec, miss, hist))
         impl, model, diffs, crashes, mcr = K.correspond(cfg, scripts)
         rep.count("histories/" + cfg, len(scripts))
         for i in diffs[:5]:
@@ -172,7 +190,7 @@ def run(tier):
                 if op.startswith("sg"):
                     want = "ERR" if dec is None else "%d:%s" % (len(dec), C.hexs(dec))
                 else:
-                    want = "1" if (dec is not None and dec == cstr) else "0"
+                    want = "1" if (dec is not None and dec == bytes.fromhex(op.split(":")[2].replace("-", ""))) else "0"
                 if t != want:
                     found = True
                     rep.finding("history", "after history %s: %s gave %s, expected %s" % (list(hist), op[:10], t[:60], want[:60]),
